@@ -117,7 +117,10 @@ def write_cfg(path, spec, constants, invariants=(), properties=(), view=None, ac
         if constants:
             f.write("CONSTANTS\n")
             for k, v in constants.items():
-                f.write("  %s = %s\n" % (k, v))
+                if isinstance(v, str) and v.startswith("<- "):
+                    f.write("  %s %s\n" % (k, v))
+                else:
+                    f.write("  %s = %s\n" % (k, v))
         if view:
             f.write("VIEW %s\n" % view)
         if invariants:
@@ -152,6 +155,7 @@ def run_design(ctx, module, cfgname, constants, invariants=(), properties=(), vi
     p = subprocess.Popen(cmd, cwd=d, env=tlc_env(heap), stdout=subprocess.PIPE, stderr=subprocess.STDOUT, text=True)
     gen = dist = None
     tail = []
+    errlines = []
     prefix = '<<"%s", ' % tag
     err = False
     try:
@@ -169,6 +173,7 @@ def run_design(ctx, module, cfgname, constants, invariants=(), properties=(), vi
                 gen, dist = int(m.group(1)), int(m.group(2))
             if "Error:" in line or "is violated" in line or "Exception" in line:
                 err = True
+                errlines.append(line)
             if time.time() - t0 > timeout:
                 p.kill()
                 raise Inconclusive("TLC design run %s timed out" % cfgname)
@@ -178,7 +183,7 @@ def run_design(ctx, module, cfgname, constants, invariants=(), properties=(), vi
         m = re.search(r"(\d+) states checked", "".join(tail))
         gen = dist = int(m.group(1)) if m else 0
     if err or p.returncode != 0 or gen is None:
-        raise Inconclusive("TLC design run %s failed (rc=%s):\n%s" % (cfgname, p.returncode, "".join(tail)))
+        raise Inconclusive("TLC design run %s failed (rc=%s):\n%s\n%s" % (cfgname, p.returncode, "".join(errlines), "".join(tail[-40:])))
     ctx.states += dist
     ctx.transitions += gen
     ctx.design_runs.append(dict(model=module, cfg=cfgname, constants={k: str(v) for k, v in constants.items()},
@@ -246,7 +251,7 @@ def index_runs(tracefile):
     cur = None
     with open(tracefile) as f:
         for i, line in enumerate(f, 1):
-            if line.startswith('{"ev":"reset"') or '"ev":"reset"' in line[:40]:
+            if '"ev":"reset"' in line:
                 cur = []
                 runs.append(cur)
             if cur is not None:
@@ -292,14 +297,24 @@ def finish(ctx, rule, level="model_checking", extra_cov=None):
             real.append(v)
     for kid, (k, n) in sorted(kf_hit.items()):
         print("KNOWN-FINDING: property=%s %s [%s; %d occurrence(s) this run]" % (ctx.pid, k["what"], kid, n))
+    if real:
+        tab = {}
+        for v in real:
+            cid = ((v.get("scenario") or {}).get("cfg") or {}).get("cid", "-") if isinstance(v.get("scenario"), dict) else "-"
+            key = (v.get("property"), v.get("guard"), cid)
+            tab[key] = tab.get(key, 0) + 1
+        print("violation summary (property, guard, configuration): count")
+        for k in sorted(tab):
+            print("   %-5s %-34s %-28s %d" % (k[0], k[1], k[2], tab[k]))
     seen = set()
     nrep = 0
     for v in real:
-        sig = (v.get("family"), v.get("guard"))
-        if sig in seen and nrep >= 5:
+        cid = ((v.get("scenario") or {}).get("cfg") or {}).get("cid", "-") if isinstance(v.get("scenario"), dict) else "-"
+        sig = (v.get("family"), v.get("guard"), cid)
+        if sig in seen:
             continue
         seen.add(sig)
-        if nrep < 25:
+        if nrep < 40:
             path = write_replay(ctx.pid, v)
             print("VIOLATION property=%s replay=%s" % (ctx.pid, path))
             print("  guard=%s family=%s detail=%s" % (v.get("guard"), v.get("family"), json.dumps(v.get("event"))[:300]))
